@@ -5,23 +5,27 @@
 import SuironVerif.Model.Subst
 namespace Suiron
 
-/-- `make_linked_list` (`s_linked_list.rs:77-124`).  The last element is treated
-    specially: a list is spliced in as the rest, `Nil` is dropped. -/
-def mkList (vbar : Bool) (ts : List Term) : Term :=
-  match ts with
+/-- the accumulator of `make_linked_list`'s backward loop: (tail, num, tail_var). -/
+abbrev Acc := Term × Nat × Bool
+/-- one iteration: `tail = cons_node!(node, tail, num, tail_var); num += 1; tail_var = false`. -/
+def accStep (x : Term) (acc : Acc) : Acc := (Term.cons x acc.1 acc.2.1 acc.2.2, acc.2.1 + 1, false)
+/-- the special treatment of the last term: a list is spliced in as the rest, `Nil` is dropped. -/
+def mkInit (vbar : Bool) (last : Term) : Acc :=
+  match last with
+  | .cons t n c tf => if t.isNil then (Term.empty, 1, false) else (.cons t n c tf, c + 1, false)
+  | .nil => (Term.empty, 1, vbar)
+  | x => (.cons x Term.empty 1 vbar, 2, false)
+
+/-- `make_linked_list` (`s_linked_list.rs:77-124`). -/
+def mkList (vbar : Bool) : List Term → Term
   | [] => .empty
   | [t] => .cons t .empty 1 vbar
-  | t0 :: t1 :: more =>
-    let rest := t1 :: more
-    let last := rest.getLast (by simp [rest])
-    let mid := rest.dropLast
-    let init : Term × Nat × Bool :=
-      match last with
-      | .cons t n c tf => if t.isNil then (.empty, 1, false) else (.cons t n c tf, c + 1, false)
-      | .nil => (.empty, 1, vbar)
-      | x => (.cons x .empty 1 vbar, 2, false)
-    let r := mid.foldr (fun x (acc : Term × Nat × Bool) => (Term.cons x acc.1 acc.2.1 acc.2.2, acc.2.1 + 1, false)) init
-    .cons t0 r.1 r.2.1 r.2.2
+  | t0 :: rest =>
+    match rest.getLast? with
+    | none => .cons t0 .empty 1 vbar
+    | some last =>
+      let r := rest.dropLast.foldr accStep (mkInit vbar last)
+      .cons t0 r.1 r.2.1 r.2.2
 
 /-- a list built from exactly these elements, nothing spliced (the builder used by
     `append` / `include` / `exclude` after repair D7). -/
